@@ -157,6 +157,72 @@ func runC09(c *Ctx) {
 	if nRD < 2 {
 		c.undecided(rule1b, "ReadData call sites", "-", fmt.Sprintf("%d found, expected client and server", nRD))
 	}
+	// ---------- O-1c every chunk is delivered; a failed decode ends the stream ----------
+	rule1c := "O-1c one chunk per delivery, no resynchronisation"
+	for _, fn := range p.FnsIn() {
+		for _, ci := range callsIn(fn) {
+			cc, ok := ci.(*ssa.Call)
+			if !ok || staticCallee(ci) != rd {
+				continue
+			}
+			// after an error the stream position is unknown: no path from the err != nil edge may call ReadData again
+			okE := errNilEdges(fn, cc, 1)
+			isCut := map[Edge]bool{}
+			for _, e := range okE {
+				isCut[e] = true
+			}
+			okErr := len(okE) > 0
+			var wpath []*ssa.BasicBlock
+			for i, sb := range cc.Block().Succs {
+				if isCut[Edge{cc.Block(), i}] {
+					continue
+				}
+				if pth := psSearch(sb, okE, nil, func(b *ssa.BasicBlock) bool { return b == cc.Block() }); pth != nil {
+					okErr = false
+					wpath = pth
+				}
+			}
+			c.check(okErr, rule1c, p.FnName(fn)+" abandons the stream after a ReadData error", p.instrPos(cc), "ReadData is called again only over the err == nil edge of the previous call",
+				"after ReadData failed (ErrTooLong, truncated chunk) the caller reads on from an undefined stream position: the following bytes are interpreted as chunk prefixes and garbage is delivered as packets", p.pathString(wpath)...)
+			// a successfully decoded chunk (also an empty one) is handed on before the next ReadData
+			good := errNilEdges(fn, cc, 1)
+			isUse := func(in ssa.Instruction) bool {
+				switch x := in.(type) {
+				case *ssa.Return:
+					return true
+				case ssa.CallInstruction:
+					if x == ssa.CallInstruction(cc) {
+						return false
+					}
+					for _, a := range callArgs(x) {
+						if isResultOfCall1(a, cc, 0) {
+							// handing the data to a consumer (QueueIncoming, a channel wrapper); copy() into the caller's buffer counts only with the return that follows
+							return calleeName(x) != "builtin.copy" && calleeName(x) != "builtin.len"
+						}
+					}
+				case *ssa.Send:
+					return isResultOfCall1(x.X, cc, 0)
+				}
+				return false
+			}
+			okUse := len(good) > 0
+			for _, e := range good {
+				if pth := psSearch(e.To(), nil, func(b *ssa.BasicBlock) bool {
+					for _, in := range b.Instrs {
+						if isUse(in) {
+							return true
+						}
+					}
+					return false
+				}, func(b *ssa.BasicBlock) bool { return b == cc.Block() }); pth != nil {
+					okUse = false
+					wpath = pth
+				}
+			}
+			c.check(okUse, rule1c, p.FnName(fn)+" delivers every decoded chunk before reading the next", p.instrPos(cc), "every path from err == nil returns or hands the data on before the next ReadData",
+				"a decoded chunk can be dropped (for example an empty one) and the next chunk read in its place: an empty payload is no longer delivered as an empty packet", p.pathString(wpath)...)
+		}
+	}
 
 	// ---------- O-2 / O-3 ----------
 	c.checkPrefixTables(rd)
@@ -174,43 +240,134 @@ func runC09(c *Ctx) {
 	}
 	sort.Slice(reads, func(i, j int) bool { return reads[i].Pos() < reads[j].Pos() })
 	nRaw := 0
+	isGlobalLoad := func(v ssa.Value, g *ssa.Global) bool {
+		addr, ok := loadAddr(v)
+		return ok && g != nil && addr == ssa.Value(g)
+	}
+	// eofEdges: the edges of fn on which "raw == io.EOF" holds (want) or fails
+	eofEdges := func(fn *ssa.Function, isRaw func(ssa.Value) bool, want bool) []Edge {
+		return condEdges(fn, want, func(a Atom) bool {
+			if a.Op != token.EQL {
+				return false
+			}
+			return (isRaw(a.X) && isGlobalLoad(a.Y, eofG)) || (isRaw(a.Y) && isGlobalLoad(a.X, eofG))
+		})
+	}
+	// mayBeRawEOF: can value v, arriving at block `at` of fn, be the raw error
+	// (identified by isRaw) while that error is io.EOF? Not when the block lies
+	// behind the "raw != io.EOF" edge, nor when the raw error was passed through
+	// a same-package helper that returns its argument only behind such an edge.
+	var mayBeRawEOF func(fn *ssa.Function, v ssa.Value, at *ssa.BasicBlock, isRaw func(ssa.Value) bool, depth int) bool
+	// mapsToUnexpected: does the value (again at a block) become io.ErrUnexpectedEOF exactly on the "raw == io.EOF" edge?
+	var sanitiser func(h *ssa.Function, idx int, depth int) (clean bool, maps bool)
+	sanitiser = func(h *ssa.Function, idx int, depth int) (bool, bool) {
+		if depth <= 0 || idx >= len(h.Params) || h.Signature.Results().Len() != 1 {
+			return false, false
+		}
+		par := h.Params[idx]
+		isPar := func(v ssa.Value) bool { return strip(v) == ssa.Value(par) }
+		clean, maps := true, false
+		eq := eofEdges(h, isPar, true)
+		for _, r := range returnsOf(h) {
+			if mayBeRawEOF(h, retVal(r, 0), r.Block(), isPar, depth-1) {
+				clean = false
+			}
+			if isGlobalLoad(retVal(r, 0), ueofG) && len(eq) > 0 && reachableWithout(h, r, eq) == nil {
+				maps = true
+			}
+		}
+		return clean, maps
+	}
+	mayBeRawEOF = func(fn *ssa.Function, v ssa.Value, at *ssa.BasicBlock, isRaw func(ssa.Value) bool, depth int) bool {
+		seen := map[ssa.Value]bool{}
+		var rec func(v ssa.Value, at, to *ssa.BasicBlock) bool
+		rec = func(v ssa.Value, at, to *ssa.BasicBlock) bool {
+			if isRaw(v) {
+				ne := eofEdges(fn, isRaw, false)
+				if len(ne) == 0 {
+					return true
+				}
+				// a phi operand arrives over the edge at->to: that edge itself may be the certifying one
+				if to != nil {
+					for _, e := range ne {
+						if e.From == at && e.To() == to {
+							return false
+						}
+					}
+				}
+				return psSearch(fn.Blocks[0], ne, nil, func(b *ssa.BasicBlock) bool { return b == at }) != nil
+			}
+			if ph, ok := v.(*ssa.Phi); ok {
+				if seen[v] {
+					return false
+				}
+				seen[v] = true
+				for i, e := range ph.Edges {
+					if rec(e, ph.Block().Preds[i], ph.Block()) {
+						return true
+					}
+				}
+				return false
+			}
+			if cc, ok := v.(*ssa.Call); ok {
+				if h := staticCallee(cc); h != nil && h.Blocks != nil && samePkg(h, fn) {
+					for i, a := range callArgs(cc) {
+						if isRaw(a) || flowsLocal(a, isRaw) {
+							if clean, _ := sanitiser(h, i, depth); !clean {
+								return true
+							}
+						}
+					}
+					return false
+				}
+			}
+			return false
+		}
+		return rec(v, at, nil)
+	}
 	for i, cc := range reads {
 		ei := errResultIndex(cc.Call.Signature())
+		isRaw := func(v ssa.Value) bool { return isResultOfCall1(v, cc, ei) }
 		rawReturned := false
 		mapped := false
 		for _, r := range returnsOf(rd) {
-			v := r.Results[1]
-			if isResultOfCall(v, cc, ei) {
+			v := retVal(r, 1)
+			if mayBeRawEOF(rd, v, r.Block(), isRaw, 2) {
 				rawReturned = true
 			}
-			if ph, ok := v.(*ssa.Phi); ok {
-				hasRaw, hasU := false, false
-				for _, e := range ph.Edges {
-					if isResultOfCall(e, cc, ei) {
-						hasRaw = true
-					}
-					if addr, okl := loadAddr(e); okl && ueofG != nil && addr == ssa.Value(ueofG) {
-						hasU = true
-					}
-				}
-				if hasRaw && hasU {
-					// the raw edge must come from the err != io.EOF side
-					eq := condEdges(rd, true, func(a Atom) bool {
-						if a.Op != token.EQL {
-							return false
+		}
+		// the mapping itself: inline (a phi merging the raw error with io.ErrUnexpectedEOF
+		// behind a raw == io.EOF test) or through a helper that does the same
+		if len(eofEdges(rd, isRaw, true)) > 0 {
+			allInstrs(rd, func(in ssa.Instruction) {
+				if ph, ok := in.(*ssa.Phi); ok {
+					hasRaw, hasU := false, false
+					for _, e := range ph.Edges {
+						if isRaw(e) {
+							hasRaw = true
 						}
-						l, r2 := a.X, a.Y
-						if !isResultOfCall(l, cc, ei) {
-							l, r2 = r2, l
+						if isGlobalLoad(e, ueofG) {
+							hasU = true
 						}
-						addr, okl := loadAddr(r2)
-						return isResultOfCall(l, cc, ei) && okl && eofG != nil && addr == ssa.Value(eofG)
-					})
-					if len(eq) > 0 {
+					}
+					if hasRaw && hasU {
 						mapped = true
 					}
-				} else if hasRaw {
-					rawReturned = true
+				}
+			})
+		}
+		for _, ci := range callsIn(rd) {
+			hc, ok := ci.(*ssa.Call)
+			if !ok {
+				continue
+			}
+			if h := staticCallee(hc); h != nil && h.Blocks != nil && samePkg(h, rd) {
+				for k, a := range callArgs(hc) {
+					if isRaw(a) {
+						if clean, maps := sanitiser(h, k, 2); clean && maps {
+							mapped = true
+						}
+					}
 				}
 			}
 		}
@@ -351,22 +508,66 @@ func (c *Ctx) checkPrefixTables(rd *ssa.Function) {
 		if !ok || addr != ssa.Value(tooLong) {
 			continue
 		}
-		edges := condEdges(rd, true, func(a Atom) bool {
-			if a.Op != token.LEQ {
-				return false
+		// the edge on which K <= i holds, however the source spells it
+		// (i >= K, !(i < K), K <= i, i > K-1, ...)
+		isCtr := func(v ssa.Value) bool { _, isPhi := v.(*ssa.Phi); return isPhi }
+		isK := func(v ssa.Value) bool { _, okk := constInt(v); return okk }
+		boundOf := func(es []Edge, strict bool) {
+			for _, e := range es {
+				iff := e.From.Instrs[len(e.From.Instrs)-1].(*ssa.If)
+				a, _ := normCond(iff.Cond)
+				k, okk := constInt(a.X)
+				if !okk {
+					k, okk = constInt(a.Y)
+				}
+				if okk {
+					K = k
+					if strict {
+						K = k + 1
+					}
+				}
 			}
-			k, okk := constInt(a.X)
-			if !okk {
-				return false
-			}
-			if _, isPhi := a.Y.(*ssa.Phi); !isPhi {
-				return false
-			}
-			K = k
-			return true
-		})
+		}
+		edges := cmpEdges(rd, "<=", isK, isCtr)
+		boundOf(edges, false)
+		if len(edges) == 0 {
+			edges = cmpEdges(rd, "<", isK, isCtr)
+			boundOf(edges, true)
+		}
 		if len(edges) == 0 || reachableWithout(rd, r, edges) != nil {
 			K = -1
+		}
+		// the bound is tested before the next prefix byte is consumed: from the
+		// counter's loop header the continuation read is reachable only over the
+		// "i < K" edge (a test placed after the read consumes a fourth prefix byte
+		// before rejecting, and accepts a 3-byte prefix only if a further byte follows)
+		if K >= 0 {
+			var reads []*ssa.Call
+			for _, ci := range callsIn(rd) {
+				if cc, ok := ci.(*ssa.Call); ok && isCallTo(cc, "io.ReadFull", "io.ReadAtLeast") {
+					reads = append(reads, cc)
+				}
+			}
+			sort.Slice(reads, func(i, j int) bool { return reads[i].Pos() < reads[j].Pos() })
+			if len(reads) >= 2 {
+				var under []Edge
+				var hdr *ssa.BasicBlock
+				for _, e := range edges {
+					under = append(under, Edge{From: e.From, Idx: 1 - e.Idx})
+					iff := e.From.Instrs[len(e.From.Instrs)-1].(*ssa.If)
+					a, _ := normCond(iff.Cond)
+					for _, v := range []ssa.Value{a.X, a.Y} {
+						if ph, ok := v.(*ssa.Phi); ok {
+							hdr = ph.Block()
+						}
+					}
+				}
+				if hdr != nil {
+					pth := psSearch(hdr, under, nil, func(b *ssa.BasicBlock) bool { return b == reads[1].Block() })
+					c.check(pth == nil, rule2, "ReadData tests the prefix length before consuming the next prefix byte", p.instrPos(reads[1]), "continuation read only behind i < K",
+						"a continuation byte is read before the length of the prefix is tested: the decoder consumes (and waits for) a byte beyond the longest legal prefix", p.pathString(pth)...)
+				}
+			}
 		}
 	}
 	// the make operand
